@@ -20,6 +20,9 @@ pub enum Consume {
     /// only peeks
     PeekOnly { n: u8 },
     Nothing,
+    /// consume everything this topic stores in the first file except the last `leave` entries
+    /// (each in a block of its own), then peek `peeks` times at the first entry left
+    UpToFileEnd { leave: u8, peeks: u8 },
 }
 
 #[derive(Clone, Debug, Serialize, Deserialize, PartialEq, Eq, Hash)]
@@ -35,6 +38,10 @@ pub struct ReclaimCase {
     pub phase2: Vec<AbsOp>,
     pub restart_before_final_drain: bool,
     pub drain: Vec<DrainStep>,
+    /// boundary focus: the topic of the first fill keeps exactly its last entry of the first
+    /// file (and peeks at it `n` times) while every other topic is drained completely
+    #[serde(default)]
+    pub focus_peeks: Option<u8>,
 }
 
 fn consume_strategy() -> BoxedStrategy<Consume> {
@@ -43,6 +50,7 @@ fn consume_strategy() -> BoxedStrategy<Consume> {
         3 => any::<u8>().prop_map(|num| Consume::Partial { num }),
         1 => (1u8..6).prop_map(|n| Consume::PeekOnly { n }),
         1 => Just(Consume::Nothing),
+        4 => (prop_oneof![3 => Just(1u8), 1 => 0u8..4], 0u8..5).prop_map(|(leave, peeks)| Consume::UpToFileEnd { leave, peeks }),
     ]
     .boxed()
 }
@@ -58,8 +66,13 @@ pub fn reclaim_strategy() -> BoxedStrategy<ReclaimCase> {
         proptest::collection::vec(op_strategy(&p2_mix, SizeProfile::Block), 0..10),
         prop_oneof![3 => Just(true), 1 => Just(false)],
         drain_strategy(),
+        proptest::option::weighted(0.4, 0u8..5),
     )
-        .prop_map(|(cfg, fills, consume, extra, phase2, restart_before_final_drain, drain)| ReclaimCase { cfg, fills, consume, extra, phase2, restart_before_final_drain, drain })
+        .prop_map(|(cfg, fills, consume, extra, phase2, restart_before_final_drain, drain, focus_peeks)| {
+            // the extra reads would consume the kept entry: drop them in focused cases
+            let extra = if focus_peeks.is_some() { Vec::new() } else { extra };
+            ReclaimCase { cfg, fills, consume, extra, phase2, restart_before_final_drain, drain, focus_peeks }
+        })
         .boxed()
 }
 
@@ -147,9 +160,15 @@ pub fn run_reclaim(case: &ReclaimCase, excl: &BTreeSet<String>) -> Outcome {
         }
         // 2) per-topic consumption plans
         let mut k = 0usize;
+        let victim = case.fills.first().map(|f| idx(f.0, nt) as u32).unwrap_or(0);
         for t in 0..nt as u32 {
             let total = run.model.topics[t as usize].appended.len();
-            match case.consume.get(t as usize).cloned().unwrap_or(Consume::Nothing) {
+            let plan = match case.focus_peeks {
+                Some(p) if t == victim => Consume::UpToFileEnd { leave: 1, peeks: p },
+                Some(_) => Consume::Full { polls: 1 },
+                None => case.consume.get(t as usize).cloned().unwrap_or(Consume::Nothing),
+            };
+            match plan {
                 Consume::Full { polls } => {
                     run.drain_one(t, &case.drain, &mut k)?;
                     for i in 0..polls {
@@ -185,6 +204,24 @@ pub fn run_reclaim(case: &ReclaimCase, excl: &BTreeSet<String>) -> Outcome {
                     }
                     if total > 0 {
                         run.out.features.insert("topic_only_peeked".into());
+                    }
+                }
+                Consume::UpToFileEnd { leave, peeks } => {
+                    let want = in_first_file[t as usize].saturating_sub(leave as usize);
+                    let mut guard = total + 10;
+                    while run.model.topics[t as usize].consumed_max() < want && guard > 0 {
+                        guard -= 1;
+                        run.apply(&Step::Do(Op::ReadNext { inst: 0, t, ck: true }))?;
+                    }
+                    for i in 0..peeks {
+                        let op = if i % 2 == 0 { Op::ReadNext { inst: 0, t, ck: false } } else { Op::BatchRead { inst: 0, t, budget: 12 << 20, ck: false, off: None } };
+                        run.apply(&Step::Do(op))?;
+                    }
+                    if total > 0 && leave > 0 {
+                        run.out.features.insert("stopped_just_before_end_of_first_file".into());
+                        if peeks > 0 {
+                            run.out.features.insert("peeked_at_last_unconsumed_block_of_first_file".into());
+                        }
                     }
                 }
                 Consume::Nothing => {
@@ -339,7 +376,7 @@ pub fn c12(ctx: &Ctx) {
             let out = run_reclaim(case, &excl);
             report(&prop, case, out, &excl)
         }),
-        cases: if q { 24 } else { 600 },
+        cases: if q { 16 } else { 600 },
         workers: 8,
         max_shrink_iters: 40,
         shrink_secs: 600,
